@@ -458,6 +458,60 @@ func (s *c11Sess) newVersions(n int) {
 	}
 }
 
+// sameBranchName: N committed parents of one repo, N concurrent branch requests asking for the same new branch
+// name, one per parent.  In any sequential order exactly the first is acknowledged (the name is then taken), so
+// afterwards exactly one node may carry the name.
+func (s *c11Sess) sameBranchName(n int) {
+	root := NewRepo()
+	Commit(root)
+	var parents []string
+	for i := 0; i < n; i++ {
+		var u string
+		var r Resp
+		if i == 0 {
+			u, r = NewVersion(root)
+		} else {
+			u, r = Branch(root, fmt.Sprintf("p%d", i))
+		}
+		if !r.OK() || u == "" {
+			return
+		}
+		Commit(u)
+		parents = append(parents, u)
+	}
+	var reqs []func() Resp
+	for _, p := range parents {
+		p := p
+		reqs = append(reqs, func() Resp { return PostJSON("node/"+p+"/branch", map[string]string{"branch": "shared", "note": "n"}) })
+	}
+	rs, met := race("datastore.newVersion", reqs)
+	s.c.Count(fmt.Sprintf("branch same name x%d window-overlapped=%v", n, met))
+	s.c.Eval(fmt.Sprintf("branch same name x%d", n), true)
+	okc := 0
+	for _, r := range rs {
+		if r.OK() {
+			okc++
+		}
+	}
+	info := Get("repo/" + root + "/info")
+	var ri struct {
+		DAG struct {
+			Nodes map[string]struct{ Branch string }
+		}
+	}
+	json.Unmarshal(info.Body, &ri)
+	carry := 0
+	for _, nd := range ri.DAG.Nodes {
+		if nd.Branch == "shared" {
+			carry++
+		}
+	}
+	if okc != 1 || carry != 1 {
+		s.report("datastore.newVersion branch-name", "concurrent branch requests for one new branch name on different parents: more than one was acknowledged, or several nodes carry the name (no sequential order allows that)",
+			fmt.Sprintf("%d concurrent POST branch {branch: shared} on %d committed parents of one repo: %v\nacknowledged: %d, nodes carrying the branch name: %d", n, n, rs, okc, carry), met)
+	}
+}
+
 // neuronjson: partial updates of different fields of one annotation
 func (s *c11Sess) neuronjson(n int) {
 	name := fmt.Sprintf("nj%d", s.r.Intn(1<<30))
@@ -545,6 +599,7 @@ func runC11(c *Ctx) {
 		s.merges(n)
 		s.bodyOps()
 		s.newVersions(n)
+		s.sameBranchName(n)
 		s.neuronjson(n)
 		s.keyvalue(4 + n)
 	}
